@@ -24,11 +24,16 @@ class Untranslatable(Exception):
 
 
 PURE_METHODS = {"dumpsCall", "loads", "decode", "get", "__serializeBlobArgs"}
-PURE_FUNCS = {"isinstance", "bytes", "_StreamResultIterator", "protocol.SendingMessage"}
+PURE_FUNCS = {"isinstance", "bool", "bytes", "_StreamResultIterator", "protocol.SendingMessage"}
 PURE_NODES = (ast.Name, ast.Attribute, ast.Subscript, ast.Constant, ast.BoolOp, ast.BinOp, ast.Compare, ast.UnaryOp, ast.Tuple,
               ast.List, ast.Call, ast.Load, ast.And, ast.Or, ast.Not, ast.Mod, ast.BitAnd, ast.BitOr, ast.Add, ast.Is, ast.IsNot,
               ast.Eq, ast.NotEq, ast.In, ast.NotIn, ast.keyword, ast.Index if hasattr(ast, "Index") else ast.Load)
 FORBIDDEN_ATTRS = {"response_annotations", "send", "recv", "recv_stub", "_pyroRelease", "__pyroCreateConnection", "close"}
+
+
+def paren(a):
+    """one spelling for a branch: an exit pair `(s, …)` on one line stays as it is, anything else is parenthesised"""
+    return a if a.startswith("(s, ") and "\n" not in a else "(%s)" % a
 
 
 class Tr:
@@ -100,6 +105,8 @@ class Tr:
         if isinstance(node, ast.UnaryOp) and isinstance(node.op, ast.Not):
             if isinstance(node.operand, ast.Name) and env.get(node.operand.id) == "streamid":
                 return "r.noStreamId"
+            if isinstance(node.operand, ast.Name) and node.operand.id in env and env[node.operand.id] is None:
+                return None           # a local bound (by an understood, effect-free statement) to an untracked pure value
             raise Untranslatable("test %s" % ast.unparse(node))
         if isinstance(node, ast.Compare) and len(node.ops) == 1:
             l, r = self.kind(node.left, env), self.kind(node.comparators[0], env)
@@ -129,6 +136,8 @@ class Tr:
             if l == "reply.flags" and fc == "exc":
                 return "r.excFlag"
             raise Untranslatable("test %s" % ast.unparse(node))
+        if isinstance(node, ast.Name) and node.id in env and env[node.id] is None:
+            return None               # same: truth test of an untracked pure local
         k = self.kind(node, env)
         if k == "reply.annotations":
             return "!r.anns.isEmpty"
@@ -311,7 +320,8 @@ class Tr:
                 and not st.value.keywords:
             # `x = self.__helper()`: straight-line helper (state updates, then `return <tracked value>`), inlined
             h = self.method(st.value.func.attr)
-            if len(h.args.args) != 1 or not h.body or not isinstance(h.body[-1], ast.Return) or h.body[-1].value is None:
+            if h.decorator_list or len(h.args.args) != 1 or not h.body or not isinstance(h.body[-1], ast.Return) or \
+                    h.body[-1].value is None:
                 raise Untranslatable("helper %s" % h.name)
             henv = {h.args.args[0].arg: "self"}
             out = []
@@ -334,11 +344,17 @@ class Tr:
             # private helper of the same class: inlined
             h = self.method(st.value.func.attr)
             params = [a.arg for a in h.args.args]
-            if h.args.vararg or h.args.kwarg or h.args.kwonlyargs or st.value.keywords or len(params) != len(st.value.args) + 1:
+            decos = [ast.unparse(d) for d in h.decorator_list]
+            if decos == ["staticmethod"]:
+                params = [None] + params          # no `self` parameter
+            elif decos:
+                raise Untranslatable("decorated helper %s" % h.name)
+            if h.args.vararg or h.args.kwarg or h.args.kwonlyargs or h.args.defaults or st.value.keywords or \
+                    len(params) != len(st.value.args) + 1:
                 raise Untranslatable("helper call %s" % ast.unparse(st))
             if any(isinstance(n, ast.Return) and n.value is not None for n in ast.walk(h)):
                 raise Untranslatable("helper %s returns a value that is dropped" % h.name)
-            henv = {params[0]: "self"}
+            henv = {params[0]: "self"} if params[0] is not None else {}
             for p, a in zip(params[1:], st.value.args):
                 k = self.kind(a, env)
                 if k is None:
@@ -364,7 +380,7 @@ class Tr:
             b = self.seq(st.orelse + rest, e2, mode, depth + 1)
             if t.startswith("NEG:"):
                 t, a, b = t[4:], b, a
-            return "if %s then (%s) else\n%s%s" % (t, a, ind, b)
+            return "if %s then %s else\n%s%s" % (t, paren(a), ind, b)
         if isinstance(st, ast.Try):
             if mode != "top" or rest or st.orelse or st.finalbody or len(st.handlers) != 1:
                 raise Untranslatable("shape of the try statement")
@@ -402,7 +418,7 @@ class Tr:
             b = self.seq_inline(st.orelse + more, dict(henv), rest, env, mode, depth + 1)
             if t.startswith("NEG:"):
                 t, a, b = t[4:], b, a
-            return "if %s then %s else\n%s%s" % (t, a, ind, b)
+            return "if %s then %s else\n%s%s" % (t, paren(a), ind, b)
         raise Untranslatable("helper statement %s" % ast.unparse(st).splitlines()[0])
 
     def lean(self):
